@@ -133,58 +133,75 @@ func (c *Ctx) ruleEqualValidity(rule string) {
 	}{{"valid x, invalid y", [2]int{T, F}}, {"invalid x, valid y", [2]int{F, T}}} {
 		verdict, pos := "", P.Pos(fi.Decl)
 		seenRefl := false
-	stmts:
-		for _, st := range fi.Decl.Body.List {
-			switch x := st.(type) {
-			case *ast.AssignStmt:
-				if len(x.Lhs) == 1 {
-					if l, ok := x.Lhs[0].(*ast.Ident); ok {
-						if _, ok := refl[info.Defs[l]]; ok {
-							seenRefl = true
-							continue
-						}
-					}
-				}
-				if seenRefl && len(refl) == 2 {
-					verdict, pos = "reaches `"+exprStr(x.Rhs[0])+"`", P.Pos(x)
-					break stmts
-				}
-			case *ast.IfStmt:
-				if !mentionsValid(x.Cond) {
-					if seenRefl && len(refl) == 2 && x.Init == nil {
-						// a test on something else after the messages are bound: only decisive if it compares
-						verdict, pos = "reaches the test `"+exprStr(x.Cond)+"`", P.Pos(x)
-						break stmts
-					}
-					continue // head of the function: nil interfaces, identical pointers
-				}
-				switch eval(x.Cond, tc.val) {
-				case T:
-					if len(x.Body.List) == 1 {
-						if rs, ok := x.Body.List[0].(*ast.ReturnStmt); ok && len(rs.Results) == 1 {
-							switch eval(rs.Results[0], tc.val) {
-							case F:
-								verdict = "false"
-							case T:
-								verdict = "returns true"
-							default:
-								verdict = "returns `" + exprStr(rs.Results[0]) + "`, which is not decided by validity"
+		var run func(list []ast.Stmt) bool // true: a verdict was reached
+		run = func(list []ast.Stmt) bool {
+			for _, st := range list {
+				switch x := st.(type) {
+				case *ast.AssignStmt:
+					if len(x.Lhs) == 1 {
+						if l, ok := x.Lhs[0].(*ast.Ident); ok {
+							if _, ok := refl[info.Defs[l]]; ok {
+								seenRefl = true
+								continue
 							}
-							pos = P.Pos(rs)
-							break stmts
 						}
 					}
-					verdict, pos = "enters a block that is not a single return", P.Pos(x)
-					break stmts
-				case U:
-					verdict, pos = "the test `"+exprStr(x.Cond)+"` is not decided by validity", P.Pos(x)
-					break stmts
+					if seenRefl && len(refl) == 2 {
+						verdict, pos = "reaches `"+exprStr(x.Rhs[0])+"`", P.Pos(x)
+						return true
+					}
+				case *ast.IfStmt:
+					if !mentionsValid(x.Cond) {
+						if seenRefl && len(refl) == 2 && x.Init == nil {
+							verdict, pos = "reaches the test `"+exprStr(x.Cond)+"`", P.Pos(x)
+							return true
+						}
+						continue // head of the function: nil interfaces, identical pointers
+					}
+					switch eval(x.Cond, tc.val) {
+					case T:
+						if run(x.Body.List) {
+							return true
+						}
+					case F:
+						switch e := x.Else.(type) {
+						case *ast.BlockStmt:
+							if run(e.List) {
+								return true
+							}
+						case *ast.IfStmt:
+							if run([]ast.Stmt{e}) {
+								return true
+							}
+						}
+					default:
+						verdict, pos = "the test `"+exprStr(x.Cond)+"` is not decided by validity", P.Pos(x)
+						return true
+					}
+				case *ast.ReturnStmt:
+					pos = P.Pos(x)
+					if len(x.Results) != 1 {
+						verdict = "returns"
+						return true
+					}
+					if !mentionsValid(x.Results[0]) && exprStr(x.Results[0]) != "false" && exprStr(x.Results[0]) != "true" {
+						verdict = "reaches `" + exprStr(x.Results[0]) + "`"
+						return true
+					}
+					switch eval(x.Results[0], tc.val) {
+					case F:
+						verdict = "false"
+					case T:
+						verdict = "returns true"
+					default:
+						verdict = "returns `" + exprStr(x.Results[0]) + "`, which is not decided by validity"
+					}
+					return true
 				}
-			case *ast.ReturnStmt:
-				verdict, pos = "reaches `"+exprStr(x.Results[0])+"`", P.Pos(x)
-				break stmts
 			}
+			return false
 		}
+		run(fi.Decl.Body.List)
 		R.Check(verdict == "false", rule, fi.Key+" "+tc.name, pos, "returns false on the validity test", "for "+tc.name+" Equal "+verdict+" instead of returning false: the comparison that follows treats a typed nil message like an empty one, so Equal((*T)(nil), &T{}) (in this argument order) can be true")
 	}
 }
